@@ -845,11 +845,164 @@ Section S1.
     - intros y H. cbn [plookup] in H. rewrite scopes_find_bind. destruct (String.eqb y x); [discriminate | apply I2; exact H].
   Qed.
 
+  (* ---- tuple assignment from a call with several results *)
+
+  Lemma st_ok_mono : forall (ρ : env V) st c r st1, st_ok ρ st -> gen_unique c st = Some (r, st1) -> st_ok ρ st1.
+  Proof.
+    intros ρ st c r st1 [S1 S2] Hu. apply gen_unique_fresh in Hu. destruct Hu as (_ & F2 & _ & F4 & _). split.
+    - intros m w Hm. rewrite F2. right. eapply S1. exact Hm.
+    - rewrite F4, F2. intros y Hy. right. apply S2. exact Hy.
+  Qed.
+
+  Lemma rel_cons_other : forall (ρ1 : env V) cast r v0 ns ws,
+    Forall2 (fun n v => rel ρ1 cast (PT V v) n) ns ws -> Forall (fun n => n <> r) ns ->
+    Forall2 (fun n v => rel ((r, v0) :: ρ1) cast (PT V v) n) ns ws.
+  Proof.
+    intros ρ1 cast r v0 ns ws F. induction F as [|n w ns' ws' [R1 R2] Fr IH]; intros Hne; [constructor|].
+    inversion Hne as [|a l Hn Hl]; subst. constructor; [|apply IH; exact Hl].
+    split; [|exact R2]. cbn [lookup]. destruct (String.eqb n r) eqn:E; [|exact R1].
+    apply String.eqb_eq in E. contradiction.
+  Qed.
+
+  Lemma mapM_uniq_sound : forall xs st names st' nodes (ρ : env V),
+    st_ok ρ st -> mapM uniq xs st = Some (names, st', nodes) ->
+    nodes = [] /\ List.length names = List.length xs /\ Forall (fun n => ~ In n (ts_used st)) names /\
+    forall vs, List.length vs = List.length names ->
+      exists ρ', Sem.bind names vs ρ = Some ρ' /\ grows ρ ρ' st st' /\
+                 Forall2 (fun n v => rel ρ' (ts_castable st') (PT V v) n) names vs.
+  Proof.
+    induction xs as [|x t IH]; intros st names st' nodes ρ Hok H.
+    - cbn in H. apply ret_some in H. destruct H as (-> & -> & ->). split; [reflexivity|]. split; [reflexivity|]. split; [constructor|].
+      intros [|v vt] L; [|discriminate]. exists ρ. split; [reflexivity|]. split; [apply grows_refl; exact Hok | constructor].
+    - cbn [mapM] in H.
+      apply bind_some in H. destruct H as (r & st1 & n1 & n2 & Hu & H & E1).
+      apply uniq_some in Hu. destruct Hu as (Hu & E2).
+      apply bind_some in H. destruct H as (rs & st2 & n3 & n4 & Ht & Hr & E3).
+      apply ret_some in Hr. destruct Hr as (E4 & E5 & E6). subst nodes n1 n2 names n4 st2.
+      pose proof (gen_unique_fresh _ _ _ _ Hu) as (F1 & F2 & _ & F4 & _).
+      pose proof (st_ok_mono _ _ _ _ _ Hok Hu) as Hok1.
+      edestruct (IH st1) as (En & L & Ffresh & Hb); [exact Hok1 | exact Ht |]. subst n3.
+      split; [reflexivity|]. split; [cbn; rewrite L; reflexivity|]. split.
+      + constructor; [exact F1|]. eapply Forall_impl; [|exact Ffresh]. intros a Ha Hin. apply Ha. rewrite F2. right. exact Hin.
+      + intros [|v vt] Lv; [discriminate|]. cbn in Lv.
+        destruct (Hb vt (eq_add_S _ _ Lv)) as (ρ1 & B1 & (G1 & G2 & G3 & G4a & G4b) & F1').
+        exists ((r, v) :: ρ1). split; [cbn [Sem.bind]; rewrite B1; reflexivity|].
+        assert (Hr1 : In r (ts_used st1)) by (rewrite F2; left; reflexivity).
+        assert (Hrc : ~ In r (ts_castable st')).
+        { intros Hc. apply (G3 r Hr1) in Hc. rewrite F4 in Hc. apply F1. apply (proj2 Hok). exact Hc. }
+        split; [split; [|split; [|split; [|split]]]|].
+        * intros m Hm. cbn [lookup]. destruct (String.eqb m r) eqn:E.
+          -- apply String.eqb_eq in E. subst. contradiction.
+          -- rewrite G1; [reflexivity | rewrite F2; right; exact Hm].
+        * intros y Hy. apply G2. rewrite F2. right. exact Hy.
+        * intros m Hm. rewrite <- F4. apply G3. rewrite F2. right. exact Hm.
+        * intros m w Hl. cbn [lookup] in Hl. destruct (String.eqb m r) eqn:E.
+          -- apply String.eqb_eq in E. subst. apply G2. exact Hr1.
+          -- eapply G4a. exact Hl.
+        * exact G4b.
+        * constructor.
+          -- split; [cbn; rewrite String.eqb_refl; reflexivity | exact Hrc].
+          -- eapply rel_cons_other; [exact F1'|]. eapply Forall_impl; [|exact Ffresh].
+             intros a Ha E. subst a. apply Ha. exact Hr1.
+  Qed.
+
+  Lemma tr_call_multi_eq : forall sc f args kws outs,
+    tr_call_multi globals sc (ECall f args kws) outs =
+    (vals <- tr_args sc args ;;
+     vals' <- match f with COp name => static_cast name vals | CFun _ => ret vals end ;;
+     names <- mapM uniq outs ;;
+     emit (Node (match f with COp _ => "" | CFun _ => "this" end)
+                (match f with COp n => n | CFun n => n end) vals' names (map kw_attr kws) []) ;;;
+     ret names).
+  Proof. intros. reflexivity. Qed.
+
+  Lemma eval_call_multi_eq : forall pe f args kws,
+    eval_call_multi V sem globals pe (ECall f args kws) =
+    match eval_args pe args with
+    | None => None
+    | Some vals =>
+      match f with
+      | COp name => match promoted V sem name vals with
+                    | Some args' => sem "" name (map kw_attr kws) args'
+                    | None => None
+                    end
+      | CFun name => sem "this" name (map kw_attr kws) (map (option_map (tensor_of V)) vals)
+      end
+    end.
+  Proof. intros. reflexivity. Qed.
+
+  Lemma inv_bind_all : forall xs names vs pe pe' sc (ρ : env V) st,
+    inv pe sc ρ st -> pbind V xs vs pe = Some pe' ->
+    Forall2 (fun n v => rel ρ (ts_castable st) (PT V v) n) names vs -> List.length names = List.length xs ->
+    inv pe' (bind_all xs names sc) ρ st.
+  Proof.
+    induction xs as [|x t IH]; intros names vs pe pe' sc ρ st Hinv Hp F L.
+    - destruct vs; cbn in Hp; [|discriminate]. inversion Hp; subst. destruct names; [exact Hinv | discriminate].
+    - destruct vs as [|v vt]; cbn [pbind] in Hp; [discriminate|].
+      destruct names as [|n nt]; [discriminate|]. inversion F as [|a b la lb Rn Ft]; subst. cbn [bind_all].
+      eapply IH; [eapply inv_assign; [exact Hinv | exact Rn] | exact Hp | exact Ft | cbn in L; congruence].
+  Qed.
+
+  Lemma pbind_length : forall xs (vs : list V) pe pe', pbind V xs vs pe = Some pe' -> List.length vs = List.length xs.
+  Proof.
+    induction xs as [|x t IH]; intros [|v vt] pe pe' H; cbn in H; try discriminate; [reflexivity|].
+    cbn. f_equal. eapply IH. exact H.
+  Qed.
+
+  Lemma tr_call_multi_sound : forall f args kws, expr_ok (ECall f args kws) = true ->
+    forall sc xs st names st' nodes pe ρ vs pe',
+    tr_call_multi globals sc (ECall f args kws) xs st = Some (names, st', nodes) ->
+    inv pe sc ρ st -> eval_call_multi V sem globals pe (ECall f args kws) = Some vs -> pbind V xs vs pe = Some pe' ->
+    exists ρ', run ρ nodes = Some ρ' /\ inv pe' (bind_all xs names sc) ρ' st' /\ grows ρ ρ' st st'.
+  Proof.
+    intros f args kws Hok sc xs st names st' nodes pe ρ vs pe' Htr Hinv Hev Hpb.
+    cbn [expr_ok] in Hok. apply andb_true_iff in Hok. destruct Hok as [Hof Hoargs].
+    rewrite tr_call_multi_eq in Htr. rewrite eval_call_multi_eq in Hev.
+    apply bind_some in Htr. destruct Htr as (vals & st1 & n1 & n2 & Hta & Htr & E1).
+    apply bind_some in Htr. destruct Htr as (vals' & st2 & n3 & n4 & Hsc & Htr & E2).
+    apply bind_some in Htr. destruct Htr as (nm & st3 & n5 & n6 & Hm & Htr & E3).
+    apply bind_some in Htr. destruct Htr as (u & st4 & n7 & n8 & He & Hr & E4).
+    apply emit_some in He. destruct He as (E5 & E6).
+    apply ret_some in Hr. destruct Hr as (E7 & E8 & E9). subst.
+    destruct (eval_args pe args) as [pvs|] eqn:Ea; [|discriminate].
+    assert (HF : Forall (fun o => match o with Some a => expr_sound a | None => True end) args).
+    { clear. induction args as [|[a|] t IH]; constructor; auto. apply tr_expr_sound. }
+    destruct (tr_args_sound args HF Hoargs sc st vals st1 n1 pe ρ pvs Hta Hinv Ea) as (ρ1 & R1 & F1 & G1).
+    (* the arguments after static casts, and the values the kernel is applied to *)
+    assert (Hargs : exists ρ2 pargs dom name, run ρ1 n3 = Some ρ2 /\ lookup_opts ρ2 vals' = Some pargs /\ grows ρ1 ρ2 st1 st2 /\
+              sem dom name (map kw_attr kws) pargs = Some vs /\ (dom = "" -> is_ctl name = false) /\
+              dom = (match f with COp _ => "" | CFun _ => "this" end) /\ name = (match f with COp n => n | CFun n => n end)).
+    { destruct f as [name|name].
+      - destruct (promoted V sem name pvs) as [pargs|] eqn:Ep; [|discriminate].
+        destruct (static_cast_sound name _ _ st1 vals' st2 n3 ρ1 pargs (proj2 (proj2 (proj2 G1))) F1 Hsc Ep) as (ρ2 & R2 & Hlk & G2).
+        exists ρ2, pargs, "", name.
+        split; [exact R2|]. split; [exact Hlk|]. split; [exact G2|]. split; [exact Hev|].
+        split; [intros Hd; apply negb_true_iff; exact Hof|]. split; reflexivity.
+      - apply ret_some in Hsc. destruct Hsc as (Ev & Est & En). subst vals' st2 n3.
+        exists ρ1, (map (option_map (tensor_of V)) pvs), "this", name.
+        split; [reflexivity|]. split; [eapply lookup_opts_rel; exact F1|]. split; [apply grows_refl; apply G1|].
+        split; [exact Hev|]. split; [intros D; discriminate D|]. split; reflexivity. }
+    destruct Hargs as (ρ2 & pargs & dom & name & R2 & Hlk & G2 & Hsem & Hplain & Edom & Ename).
+    edestruct (mapM_uniq_sound xs st2) as (En5 & Ln & _ & Hb); [exact (proj2 (proj2 (proj2 G2))) | exact Hm |]. subst n5.
+    assert (Lvs : List.length vs = List.length nm).
+    { rewrite Ln. eapply pbind_length. exact Hpb. }
+    destruct (Hb vs Lvs) as (ρ3 & B3 & G3 & F3).
+    exists ρ3. split; [|split].
+    - rewrite run_app, R1, run_app, R2. cbn [app]. rewrite <- Edom, <- Ename.
+      eapply run_plain; [exact Hplain | | exact Hsem | exact B3].
+      (* the arguments are looked up before the outputs are bound: in ρ2 *)
+      exact Hlk.
+    - eapply inv_bind_all; [| exact Hpb | exact F3 | exact Ln].
+      eapply inv_grows; [exact Hinv|]. eapply grows_trans; [exact G1|]. eapply grows_trans; eassumption.
+    - eapply grows_trans; [exact G1|]. eapply grows_trans; eassumption.
+  Qed.
+
   (* the statements before the final return of a straight-line body: assignments of S1 expressions *)
   Fixpoint assigns_ok (ss : list stmt) : bool :=
     match ss with
     | [] => true
     | SAssign _ e :: t => expr_ok e && assigns_ok t
+    | STuple _ (ECall f args kws) :: t => expr_ok (ECall f args kws) && assigns_ok t
     | _ => false
     end.
 
@@ -880,7 +1033,23 @@ Section S1.
       inversion E1; subst.
       edestruct (tr_returns_sound es Hes) as (ρ1 & R1 & L1 & _); [exact Hrs | exact Hinv | exact Er | exact Hl |].
       exists ρ1. split; [|exact L1]. cbn [app]. rewrite !app_nil_r. exact R1.
-    - destruct s as [x e| | | | | |]; try discriminate Hpre.
+    - destruct s as [x e|xs e| | | | |]; try discriminate Hpre.
+      2: {
+        destruct e as [| | | | |f args kws]; try discriminate Hpre.
+        cbn [assigns_ok] in Hpre. apply andb_true_iff in Hpre. destruct Hpre as [Hoe Hot].
+        cbn [app] in *. rewrite tr_stmts_tuple in Htr. rewrite exec_block_tuple in Hex.
+        apply bind_some in Htr. destruct Htr as (lo_s & st1 & n1 & n2 & Hlift & Htr & ->).
+        apply lift_some in Hlift. destruct Hlift as (_ & -> & ->).
+        apply bind_some in Htr. destruct Htr as (r & st2 & n3 & n4 & Has & Htr & ->).
+        apply bind_some in Has. destruct Has as (nm & st3 & n5 & n6 & Htm & Hret & ->).
+        apply ret_some in Hret. destruct Hret as (-> & -> & ->).
+        destruct (eval_call_multi V sem globals pe (ECall f args kws)) as [cvs|] eqn:Ec; [|discriminate].
+        destruct (pbind V xs cvs pe) as [pe1|] eqn:Epb; [|discriminate].
+        edestruct (tr_call_multi_sound f args kws Hoe) as (ρ1 & R1 & Hinv1 & G1); [exact Htm | exact Hinv | exact Ec | exact Epb |].
+        cbn [fst snd] in Htr.
+        edestruct (IH Hot es Hes) as (ρ2 & R2 & L2);
+          [exact Htr | exact Hinv1 | exact Hex | eapply lookups_grows; [apply Hinv | exact G1 | exact Hl] |].
+        exists ρ2. split; [|exact L2]. cbn [app]. rewrite app_nil_r, run_app, R1. exact R2. }
       cbn [assigns_ok] in Hpre. apply andb_true_iff in Hpre. destruct Hpre as [Hoe Hot].
       cbn [app] in *. rewrite tr_stmts_assign in Htr. rewrite exec_block_assign in Hex.
       apply bind_some in Htr. destruct Htr as (lo_s & st1 & n1 & n2 & Hlift & Htr & ->).
